@@ -79,6 +79,21 @@ def drive(ctx):
         ub = mk_dt({"n": "Europe/Paris", "fo": 0}, [2025, 3, 1, 9, 30, 0, 7], 0)
         for (a, b, ab) in ((da, db, False), (db, da, False), (db, da, True), (ua, ub, False), (ub, ua, False), (ub, ua, True)):
             all_hows({"k": "iv", "a": a, "b": b, "abs": ab})
+    # values cloned together: equal instants in different zones, equal walls in different zones, the same object twice
+    if ctx.i == 1 % ctx.n:
+        a1 = mk_dt(UTCZ, [2021, 6, 1, 10, 30, 0, 5], 0)
+        b1 = mk_dt({"n": "Europe/Paris", "fo": 0}, [2021, 6, 1, 12, 30, 0, 5], 0)
+        c1 = mk_dt({"n": "", "fo": 7200}, [2021, 6, 1, 12, 30, 0, 5], 0)
+        d1 = mk_dt({"n": "America/New_York", "fo": 0}, [2021, 6, 1, 12, 30, 0, 5], 0)
+        for (x, y) in ((a1, b1), (b1, a1), (b1, c1), (c1, b1), (b1, d1), (a1, a1), (c1, a1)):
+            for h in ("deepcopy-pair", "pickle-pair"):
+                ctx.emit("copy", {"how": h}, [x, y])
+        # durations whose native value cancels out (falsy as a timedelta) although they carry components
+        for args in (dict(mo=1, d=-30), dict(y=1, d=-365), dict(d=1, h=-24), dict(), dict(y=-1, mo=12, d=5), dict(w=1, d=-7),
+                     dict(mo=2, d=-60, us=0), dict(y=1, mo=1, d=-395)):
+            a = {k: 0 for k in KEYS}
+            a.update(args)
+            all_hows({"k": "dur", "args": a})
     # durations: every subset of components, either sign
     subsets = []
     comp = ("y", "mo", "w", "d", "h", "mi", "s", "us")
